@@ -594,6 +594,36 @@ def omit_backbone_cases(ff, names=None):
     return out
 
 
+def omit_pair_cases(ff, names=None, all_pairs=False):
+    """Two heavy atoms of one residue missing that are rebuilt in different
+    local frames: a backbone oxygen together with a side-chain atom, or CB
+    together with the far end of the side chain (all_pairs: every pair of
+    heavy atoms of the residue)."""
+    out = []
+    for x in (names or T.AMINO):
+        for pos in corpus.POSITIONS:
+            side = sidechain_heavy(x, pos)
+            back = ["O"] + (["OXT"] if pos == "c" else [])
+            pairs = []
+            if all_pairs:
+                heavy = ["N", "CA", "C"] + back + side
+                pairs = [[a, b] for i, a in enumerate(heavy)
+                         for b in heavy[i + 1:]]
+            else:
+                ends = [a for a in (side[:1] + side[-1:])]
+                for b in back:
+                    for a in dict.fromkeys(ends):
+                        pairs.append([b, a])
+                if len(side) >= 3:
+                    pairs.append([side[0], side[-1]])
+                if pos == "c":
+                    pairs.append(["O", "OXT"])
+            for pr in pairs:
+                out.append({"x": x, "pos": pos, "ff": ff, "opt": "default",
+                            "env": [["omit", pr]]})
+    return out
+
+
 def asym_acid_cases(ffs=("AMBER", "PARSE")):
     """Acids whose two C-O bonds differ by 0.08 A (either one longer): the
     optimiser handles such groups in a branch of its own."""
